@@ -25,6 +25,8 @@ THEOREMS = [
     "TornadoModel.C15.cut_off_bytes",
     "TornadoModel.C15.header_violation_aborts",
     "TornadoModel.C15.content_violation_aborts",
+    "TornadoModel.C15.model_refines_strict",
+    "TornadoModel.C15.same_abort_point",
 ]
 TRUSTED = list(c14.TRUSTED) + [
     "the reading of RFC 6455 / RFC 7692 into Spec.frameViolation / Spec.strict (C15/Spec.lean, ~100 lines)",
@@ -34,7 +36,8 @@ TRUSTED = list(c14.TRUSTED) + [
 ASSUMPTIONS = list(c14.ASSUMPTIONS) + [
     "one violation per case; payloads flagged RSV1 by the harness are real deflate output (the kind `corrupt` of the "
     "spec reader — zlib.error, which escapes _receive_frame_loop — is outside the property's list and not generated)",
-    "Spec.model_refines_strict_goal (machine = strict reader on every frame list) is stated, not proved: tie only",
+    "model_refines_strict / same_abort_point (machine = strict reader on every frame list) exclude the reader verdict "
+    "`corrupt` (payload flagged compressed that is no deflate stream: zlib.error escapes the loop, outside the property's list)",
 ]
 RULE = ("valid scripts of 1-4 messages (fragmented, compressed, pings in the gaps) with one violation of each listed class "
         "inserted at every frame position, + size limits at limit/limit+1 before and after decompression, + invalid UTF-8 "
@@ -46,6 +49,8 @@ CLAUSES = {
     "no message derived from the violating frame or any later frame is delivered": "cut_off / cut_off_bytes (arbitrary suffix) + nothing_after_abort",
     "every message completed before it is delivered intact": "cut_off (arbitrary open prefix) + prefix_intact (well-formed script prefix, via C14.messages_intact)",
     "size limits before and after decompression": "violation_aborts (kinds tooBig, tooBigAfter); zlib's max_length behaviour: tie only",
+    "the receiver behaves as the strict RFC 6455/7692 reader (the oracle) on every frame list": "model_refines_strict (same delivered "
+        "messages, aborted iff the reader reports a violation) + same_abort_point (open before, aborted at, the frame the reader names)",
 }
 PARALLEL = False
 CASE_TIMEOUT = 60
